@@ -23,7 +23,7 @@ ASSUMPTIONS = ['libm modf/frexp/ldexp are modelled bit-exactly by engine/models.
                'named quantity of a constant = the documentation line in gtc/constants.hpp / ext/scalar_constants.hpp (three_over_two_pi is documented as pi/2*3)']
 
 U = Unit('c11', includes=['glm/glm.hpp', 'glm/ext/scalar_common.hpp', 'glm/ext/vector_common.hpp', 'glm/gtx/wrap.hpp', 'glm/gtx/common.hpp', 'glm/gtx/compatibility.hpp',
-                          'glm/gtc/constants.hpp', 'glm/ext/scalar_constants.hpp'])
+                          'glm/gtc/constants.hpp', 'glm/ext/scalar_constants.hpp', 'glm/gtc/epsilon.hpp'])
 FT = {'f32': ('float', 32), 'f64': ('double', 64), 'i32': ('int', 32)}
 
 # ----------------------------------------------------------------------------- SMT helpers (specification side only)
@@ -62,6 +62,40 @@ def odd_integral(fl, w):
     s_, E, M = fields(b); sig = z3.Concat(z3.BitVecVal(1, 1), M); eb = E.size()
     sh = z3.BitVecVal(bias + mb, eb) - E
     return z3.And(z3.UGE(E, bias), z3.ULE(E, bias + mb), z3.Extract(0, 0, z3.LShR(sig, z3.ZeroExt(mb + 1 - eb, sh))) == 1)
+# --- syntactic normal form: the compiled code and the transcribed IEEE formula contain the same multiplications with (possibly) commuted operands; bit-blasting two
+# commuted 24/53-bit multipliers against each other does not finish, so both sides are brought to ONE operand order and compared as terms.  The only rewrites are
+# z3's simplifier (x - y -> x + (-y), constant folding; part of the trusted solver) and commutativity of fp.add / fp.mul (exact in SMT-LIB FP: one NaN, no payloads;
+# re-proved every run as the obligations c11.lemma.commute-*).  The operand order is the order of a structural hash (independent of term ids / creation order).
+import hashlib
+_COMM = (z3.Z3_OP_FPA_MUL, z3.Z3_OP_FPA_ADD)
+def _kind(t): return t.decl().kind() if z3.is_app(t) else None
+def canon(e, simp=True):
+    """(term, is_syntactically_true): e with fp.add/fp.mul operands sorted, float reinterpretations pushed through selections
+    (to_fp(c ? p : q) -> c ? to_fp(p) : to_fp(q);  to_fp(to_ieee_bv(x)) -> x, z3 has a single NaN), t fp.eq t -> not NaN(t), and equalities between identical terms folded to true"""
+    memo = {}
+    def go(t):
+        k = t.get_id()
+        if k in memo: return memo[k][1], memo[k][2]
+        if z3.is_app(t) and t.num_args() > 0:
+            rs = [go(c_) for c_ in t.children()]; ch = [r_[0] for r_ in rs]; ks = [r_[1] for r_ in rs]; dk = t.decl().kind(); res = None
+            if dk == z3.Z3_OP_FPA_TO_FP and len(ch) == 1 and z3.is_bv(ch[0]):
+                c0 = ch[0]
+                if _kind(c0) == z3.Z3_OP_FPA_TO_IEEE_BV and c0.arg(0).sort() == t.sort(): res = go(c0.arg(0))
+                elif _kind(c0) == z3.Z3_OP_ITE: res = go(z3.If(c0.arg(0), t.decl()(c0.arg(1)), t.decl()(c0.arg(2))))
+            elif dk == z3.Z3_OP_EQ and ks[0] == ks[1]: res = (z3.BoolVal(True), 'true')
+            elif dk == z3.Z3_OP_FPA_EQ and ks[0] == ks[1]: res = go(z3.Not(z3.fpIsNaN(ch[0])))       # t fp.eq t  <=>  t is not NaN; makes valeq(t, t) fold to true
+            if res is None:
+                if dk in _COMM and ks[1] > ks[2]: ch = [ch[0], ch[2], ch[1]]; ks = [ks[0], ks[2], ks[1]]
+                res = (t.decl()(*ch), hashlib.sha1(('%s%s:%s(%s)' % (t.decl().name(), t.decl().params(), t.sort(), ','.join(ks))).encode()).hexdigest())
+        else:
+            res = (t, 'true' if z3.is_true(t) else hashlib.sha1(('%s:%s' % (t.sexpr(), t.sort())).encode()).hexdigest())
+        memo[k] = (t, res[0], res[1]); return res          # keep t alive: ids of collected temporaries are reused
+    r = go(z3.simplify(e) if simp else e)[0]
+    return r, z3.is_true(r) or z3.is_true(z3.simplify(r))
+def syn(goal):
+    """goal, or literally true when its two sides meet syntactically after canon()"""
+    r, ok = canon(goal)
+    return z3.BoolVal(True) if ok else r
 # --- term surgery for cut lemmas: a hard sub-circuit of the executed term (a division, a polynomial) is covered by a lemma that is proved
 # for ALL values of a fresh variable put in place of the sub-term's argument, then instantiated (by syntactic substitution) at the real argument
 def dag(t):
@@ -74,7 +108,16 @@ def dag(t):
 def find_kind(t, kind): return [x for x in dag(t) if z3.is_app(x) and x.decl().kind() == kind]
 def free_consts(t): return [x for x in dag(t) if z3.is_const(x) and x.decl().kind() == z3.Z3_OP_UNINTERPRETED]
 def contains(t, sub): i = sub.get_id(); return any(x.get_id() == i for x in dag(t))
-def lemma(S, name, goal, hyps, timeout, w, mandatory=True):
+def lemma(S, name, goal, hyps, timeout, w, mandatory=True, cvc5_first=False):
+    """cvc5_first: pure SMT-LIB FP lemmas about one division / subtraction are decided by cvc5 in 0.1-2 s where z3 needs 5-50 s (double); z3 remains the fallback"""
+    if cvc5_first:
+        asserts = list(hyps) + [z3.Not(goal)]
+        try: r, m, dt, used = S.query(asserts, min(timeout / 3.0, 60), 'cvc5', free_consts(z3.And(*asserts)))
+        except Exception: r = 'unknown'
+        if r == 'unsat':
+            S.rec(name='c11.lemma.%s_f%d' % (name, w), kind='lemma', functions=[], bounds='pure SMT-LIB FP lemma over fresh variables (no glm code); instantiated in the obligations that follow', solver=used, result=r,
+                  time_s=round(dt, 3), mandatory=mandatory, note='', status='discharged')
+            return True
     r, m = S.prove('c11.lemma.%s_f%d' % (name, w), goal, hyps, timeout=timeout, kind='lemma', mandatory=mandatory, bounds='pure SMT-LIB FP lemma over fresh variables (no glm code); instantiated in the obligations that follow')
     return r == 'unsat'
 # ----------------------------------------------------------------------------- specifications: spec(w, X, O) -> [(label, goal)]
@@ -124,16 +167,16 @@ def sp_smooth_ends(w, X, O):
             ('one-above-given-ordered-differences', z3.Implies(z3.And(z3.fpGEQ(x, e1), ordered), ident(O.fp, K(1, w))))]
 def sp_smooth_formula(w, X, O):
     e0, e1, x = [F(v) for v in X]; t = g_clamp(z3.fpDiv(RNE, z3.fpSub(RNE, x, e0), z3.fpSub(RNE, e1, e0)), K(0, w), K(1, w))       # GLSL: t = clamp((x-edge0)/(edge1-edge0), 0, 1); t*t*(3-2*t)
-    return [('formula', z3.simplify(ident(O.fp, z3.fpMul(RNE, z3.fpMul(RNE, t, t), z3.fpSub(RNE, K(3, w), z3.fpMul(RNE, K(2, w), t))))))]
+    return [('formula', syn(ident(O.fp, z3.fpMul(RNE, z3.fpMul(RNE, t, t), z3.fpSub(RNE, K(3, w), z3.fpMul(RNE, K(2, w), t))))))]
 def sp_smooth_range(w, X, O): return [('ge-zero', z3.fpGEQ(O.fp, K(0, w))), ('le-one', z3.fpLEQ(O.fp, K(1, w)))]
 def mix_formula(x, y, a, w): return z3.fpAdd(RNE, z3.fpMul(RNE, x, z3.fpSub(RNE, K(1, w), a)), z3.fpMul(RNE, y, a))     # GLSL: x*(1-a) + y*a
 def sp_mix(w, X, O):
     x, y, a = [F(v) for v in X]
-    return [('formula', z3.simplify(ident(O.fp, mix_formula(x, y, a, w)))),     # simplify: one canonical operand order of the commutative fp.add/fp.mul on both sides
+    return [('formula', syn(ident(O.fp, mix_formula(x, y, a, w)))),     # syn: one canonical operand order of the commutative fp.add/fp.mul on both sides
             ('end-a-zero', z3.Implies(z3.And(fin(x, y), z3.fpEQ(a, K(0, w))), z3.fpEQ(O.fp, x))), ('end-a-one', z3.Implies(z3.And(fin(x, y), z3.fpEQ(a, K(1, w))), z3.fpEQ(O.fp, y)))]
 def sp_mixb(w, X, O): return [('select', same_float(O, z3.If(X[2] == 1, X[1], X[0])))]
 def mod_formula(x, y): return z3.fpSub(RNE, x, z3.fpMul(RNE, y, rti(RTN, z3.fpDiv(RNE, x, y))))                            # GLSL: x - y*floor(x/y)
-def sp_mod(w, X, O): return [('formula', z3.simplify(ident(O.fp, mod_formula(F(X[0]), F(X[1])))))]
+def sp_mod(w, X, O): return [('formula', syn(ident(O.fp, mod_formula(F(X[0]), F(X[1])))))]
 def sp_mod_one(w, X, O):
     x = F(X[0]); return [('mod-by-one-is-fract', z3.Implies(fin(x), valeq(O.fp, z3.fpSub(RNE, x, rti(RTN, x)))))]
 def uf2(name, w): return z3.Function('%s%d' % (name, w), FSORT[w], FSORT[w], FSORT[w])
@@ -184,7 +227,7 @@ def sp_iround(unsigned):
     return spec
 def pre_iround(unsigned):
     def pre(w, X):
-        x = F(X[0]); return [z3.fpGEQ(x, K(0, w)), z3.fpLT(z3.fpAdd(RNE, x, K(0.5, w)), K(2.0 ** (32 if unsigned else 31), w)), z3.fpLT(x, K(2.0 ** (32 if unsigned else 31) - 0.5, w))]
+        x = F(X[0]); return [z3.fpGEQ(x, K(0, w)), z3.fpLT(x, K(2.0 ** (32 if unsigned else 31) - 0.5, w))]        # documented assert 0 <= x; nearest integer (ties away) below 2^31 / 2^32
     return pre
 def sp_bounded(strict):
     def spec(w, X, O):
@@ -206,13 +249,13 @@ def _uniq(hy):
 def fresh_fp(S, w, pfx):
     S.__dict__['_c11_n'] = S.__dict__.get('_c11_n', 0) + 1
     return z3.FP('%s!%d' % (pfx, S.__dict__['_c11_n']), FSORT[w])
-def cut_divisions(S, w, res, cuts, hy):
+def cut_divisions(S, w, res, cuts, hy, need_nan=True):
     """replace every division a/b of the executed term by a fresh float d constrained only by lemmas proved for all a, b (finite, b > 0):
     a >= b -> a/b >= 1;  a <= 0 -> a/b <= 0;  a/b is not NaN"""
     a, b = z3.FP('lem_a', FSORT[w]), z3.FP('lem_b', FSORT[w]); q = z3.fpDiv(RNE, a, b); base = [fin(a, b), z3.fpGT(b, K(0, w))]
-    ok1 = _cached(S, ('q1', w), lambda: lemma(S, 'quotient-ge-one', z3.fpGEQ(q, K(1, w)), base + [z3.fpGEQ(a, b)], S.cap(200, 600), w))
-    ok0 = _cached(S, ('q0', w), lambda: lemma(S, 'quotient-le-zero', z3.fpLEQ(q, K(0, w)), base + [z3.fpLEQ(a, K(0, w))], S.cap(200, 600), w))
-    okn = _cached(S, ('qn', w), lambda: lemma(S, 'quotient-not-nan', z3.Not(z3.fpIsNaN(q)), base, S.cap(200, 600), w))
+    ok1 = _cached(S, ('q1', w), lambda: lemma(S, 'quotient-ge-one', z3.fpGEQ(q, K(1, w)), base + [z3.fpGEQ(a, b)], S.cap(200, 600), w, cvc5_first=True))
+    ok0 = _cached(S, ('q0', w), lambda: lemma(S, 'quotient-le-zero', z3.fpLEQ(q, K(0, w)), base + [z3.fpLEQ(a, K(0, w))], S.cap(200, 600), w, cvc5_first=True))
+    okn = need_nan and _cached(S, ('qn', w), lambda: lemma(S, 'quotient-not-nan', z3.Not(z3.fpIsNaN(q)), base, S.cap(200, 600), w, cvc5_first=True))
     seen = set()
     for r in out_fps(res):
         for D in find_kind(r, z3.Z3_OP_FPA_DIV):
@@ -223,12 +266,44 @@ def cut_divisions(S, w, res, cuts, hy):
             if ok1: hy.append(z3.Implies(z3.And(pre, z3.fpGEQ(A, B)), z3.fpGEQ(d, K(1, w))))
             if ok0: hy.append(z3.Implies(z3.And(pre, z3.fpLEQ(A, K(0, w))), z3.fpLEQ(d, K(0, w))))
             if okn: hy.append(z3.Implies(pre, z3.Not(z3.fpIsNaN(d))))
+def cut_abs(S, w, res, cuts, hy):
+    """the compiled glm::abs is a selection between the argument's bit pattern and the pattern with the sign bit flipped, reinterpreted as a float; that sub-term T(x) is shown
+    to be identical (SMT-LIB '=') to the GLSL definition  x >= 0 ? x : -x  for every x and then replaced by it, so that what follows meets the transcribed formula syntactically"""
+    seen = set(); ARITH = (z3.Z3_OP_FPA_ADD, z3.Z3_OP_FPA_SUB, z3.Z3_OP_FPA_MUL, z3.Z3_OP_FPA_DIV, z3.Z3_OP_FPA_ROUND_TO_INTEGRAL, z3.Z3_OP_FPA_FMA, z3.Z3_OP_FPA_SQRT)
+    for r in out_fps(res):
+        for T in find_kind(r, z3.Z3_OP_ITE):
+            if T.get_id() in seen or not z3.is_fp(T): continue
+            seen.add(T.get_id()); fc = free_consts(T)
+            if len(fc) != 1 or not z3.is_bv(fc[0]) or fc[0].size() != w or any(_kind(x) in ARITH for x in dag(T)): continue
+            v = z3.BitVec('lem_x', w); Tv = z3.substitute(T, (fc[0], v)); goal = Tv == g_abs(F(v), w)
+            def screen(goal=goal):      # candidate search only (is this selection the compiled abs?): a failed screen is not a verdict about glm
+                sv = z3.Solver(); sv.set('timeout', 5000); sv.add(z3.Not(goal)); return sv.check() == z3.unsat
+            if not _cached(S, ('abs?', w, Tv.sexpr()), screen): continue
+            if _cached(S, ('abs', w, Tv.sexpr()), lambda: lemma(S, 'compiled-abs-is-glsl-abs', goal, [], S.cap(60, 200), w)):
+                cuts.append((T, canon(g_abs(F(fc[0]), w))[0]))
+def cut_fract(S, w, res, cuts, hy, nonneg=True):
+    """replace every g - floor(g) of the executed term by a fresh float r constrained only by lemmas proved for all finite g >= 0:  0 <= g - floor(g) < 1"""
+    g = z3.FP('lem_g', FSORT[w]); fr = canon(z3.fpSub(RNE, g, rti(RTN, g)))[0]; base = [fin(g), z3.fpGEQ(g, K(0, w))]
+    ok0 = _cached(S, ('fr0', w), lambda: lemma(S, 'fract-ge-zero', z3.fpGEQ(fr, K(0, w)), base, S.cap(100, 300), w, cvc5_first=True))
+    ok1 = _cached(S, ('fr1', w), lambda: lemma(S, 'fract-lt-one', z3.fpLT(fr, K(1, w)), base, S.cap(100, 300), w, cvc5_first=True))
+    seen = set()
+    for r0 in out_fps(res):
+        r0 = apply_cuts(r0, cuts)
+        for A in find_kind(r0, z3.Z3_OP_FPA_ADD):
+            G = None
+            for p_, q_ in ((A.arg(1), A.arg(2)), (A.arg(2), A.arg(1))):
+                if z3.is_app(q_) and q_.decl().kind() == z3.Z3_OP_FPA_NEG and z3.is_app(q_.arg(0)) and q_.arg(0).decl().kind() == z3.Z3_OP_FPA_ROUND_TO_INTEGRAL \
+                        and q_.arg(0).arg(0).eq(RTN) and q_.arg(0).arg(1).eq(p_): G = p_
+            if G is None or A.get_id() in seen: continue
+            seen.add(A.get_id()); dom = z3.And(fin(G), z3.fpGEQ(G, K(0, w))); rv = fresh_fp(S, w, 'cut_fract'); cuts.append((A, rv))
+            if ok0: hy.append(z3.Implies(dom, z3.fpGEQ(rv, K(0, w))))
+            if ok1: hy.append(z3.Implies(dom, z3.fpLT(rv, K(1, w))))
 def apply_cuts(t, cuts):
-    for old, new in cuts: t = z3.substitute(t, (old, new))
+    for old, new in cuts: t = canon(z3.substitute(t, (old, new)), simp=False)[0]       # re-sort: the structural order of operands changes with the replaced sub-term
     return t
 def eh_smooth_div(S, w):
     def eh(res):
-        cuts = []; hy = []; cut_divisions(S, w, res, cuts, hy); return hy, cuts
+        cuts = []; hy = []; cut_divisions(S, w, res, cuts, hy, need_nan=False); return hy, cuts      # the end-value obligations only use quotient <= 0 / >= 1 (which already exclude NaN)
     return eh
 def eh_smooth_range(S, w, upper=True):
     """additionally cut at the Hermite polynomial: the executed P(tmp) (whatever operand order the compiler chose) is shown to map [0,1] into [0,1] for every float tmp
@@ -240,7 +315,7 @@ def eh_smooth_range(S, w, upper=True):
             muls = find_kind(r0, z3.Z3_OP_FPA_MUL)
             sq = [m for m in muls if m.arg(1).eq(m.arg(2))]
             if len(sq) != 1 or not muls or not contains(muls[0], sq[0]): continue
-            tmp = sq[0].arg(1); top = muls[0]; t = z3.FP('lem_t', FSORT[w]); P = z3.substitute(top, (tmp, t))
+            tmp = sq[0].arg(1); top = muls[0]; t = z3.FP('lem_t', FSORT[w]); P = canon(z3.substitute(top, (tmp, t)), simp=False)[0]     # same polynomial as top up to operand order
             if [x.get_id() for x in free_consts(P)] != [t.get_id()]: continue
             dom = [z3.fpGEQ(t, K(0, w)), z3.fpLEQ(t, K(1, w))]; inst = z3.And(z3.fpGEQ(tmp, K(0, w)), z3.fpLEQ(tmp, K(1, w)))
             pv = fresh_fp(S, w, 'cut_hermite'); cuts.append((top, pv))
@@ -253,7 +328,9 @@ def eh_mirror(S, w):
     fl = floor(g) and 0 for even fl, for every finite g >= 0, and is then replaced by a fresh float c constrained by exactly that"""
     def eh(res):
         cuts = []; hy = []; seen = set(); RTI = z3.Z3_OP_FPA_ROUND_TO_INTEGRAL
+        cut_abs(S, w, res, cuts, hy)
         for r0 in out_fps(res):
+            r0 = apply_cuts(r0, cuts)
             rtis = find_kind(r0, RTI)
             inner = [x for x in rtis if not find_kind(x.arg(1), RTI)]
             outer = [x for x in rtis if find_kind(x.arg(1), RTI)]
@@ -261,12 +338,17 @@ def eh_mirror(S, w):
             FL, FL2 = inner[0], outer[0]; G = FL.arg(1)
             cands = [x for x in find_kind(r0, z3.Z3_OP_FPA_ADD) + find_kind(r0, z3.Z3_OP_FPA_SUB) if any(c_.eq(FL) for c_ in x.children()) and contains(x, FL2)]
             if len(cands) != 1 or cands[0].get_id() in seen: continue
-            C = cands[0]; seen.add(C.get_id()); g = z3.FP('lem_g', FSORT[w]); Ca = z3.substitute(C, (G, g)); FLa = z3.substitute(FL, (G, g))
+            C = cands[0]; seen.add(C.get_id()); g = z3.FP('lem_g', FSORT[w]); Ca = canon(z3.substitute(C, (G, g)), simp=False)[0]; FLa = z3.substitute(FL, (G, g))
             if [x.get_id() for x in free_consts(Ca)] != [g.get_id()]: continue
             if _cached(S, ('par', w, Ca.sexpr()), lambda: lemma(S, 'floor-mod-two-is-parity', Ca == z3.If(odd_integral(FLa, w), K(1, w), K(0, w)), [fin(g), z3.fpGEQ(g, K(0, w))], S.cap(200, 600), w)):
                 c = fresh_fp(S, w, 'cut_parity'); cuts.append((C, c))
                 hy.append(z3.Implies(z3.And(fin(G), z3.fpGEQ(G, K(0, w))), c == z3.If(odd_integral(FL, w), K(1, w), K(0, w))))
+        cut_fract(S, w, res, cuts, hy)
         return hy, cuts
+    return eh
+def eh_abs(S, w):
+    def eh(res):
+        cuts = []; hy = []; cut_abs(S, w, res, cuts, hy); return hy, cuts
     return eh
 
 # ----------------------------------------------------------------------------- regions of the known findings
@@ -339,20 +421,28 @@ add('mod', ['T', 'T'], 'T', 'glm::mod({0}, {1})', sp_mod, variants=('vv', 'vs'),
 add('mod_one', ['T'], 'T', 'glm::mod({0}, T_(1))', sp_mod_one, bounds='y = 1, all finite x', timeout=(120, 400), heavy=True)
 add('fmod', ['T', 'T'], 'T', 'glm::fmod({0}, {1})', sp_fmod, variants=('vv', 'vs'), bounds='routing/lifting only (fmod uninterpreted)', group='routing')
 add('atan2', ['T', 'T'], 'T', 'glm::atan2({0}, {1})', sp_atan2, variants=('vv',), Ls=(2, 3, 4), bounds='routing/lifting only (atan2 uninterpreted)', group='routing')
-add('modf', ['T'], ['T', 'T'], None, sp_modf, variants=('v',), bounds='all x', timeout=(150, 400),
+add('modf', ['T'], ['T', 'T'], None, sp_modf, variants=('v',), bounds='all x', timeout=(300, 600),
     body_s='T_ ip; o[0] = glm::modf(a[0], ip); o2[0] = ip;', body_v='glm::vec<L_,T_> ip; stv(o, glm::modf(ldv<L_,T_>(a), ip)); stv(o2, ip);')
-add('frexp', ['T'], ['T', 'int'], None, sp_frexp, variants=('v',), bounds='all x', timeout=(120, 400),
+add('frexp', ['T'], ['T', 'int'], None, sp_frexp, variants=('v',), bounds='all x', timeout=(300, 600),
     body_s='int e; o[0] = glm::frexp(a[0], e); o2[0] = e;', body_v='glm::vec<L_,int> e; stv(o, glm::frexp(ldv<L_,T_>(a), e)); stv(o2, e);')
-add('ldexp', ['T', 'int'], 'T', 'glm::ldexp({0}, {1})', sp_ldexp, variants=('vv',), bounds='all finite x, all int exponents', timeout=(120, 400))
-add('frexp_ldexp', ['T'], 'T', None, sp_frexp_ldexp, bounds='all finite x', timeout=(120, 400), heavy=True, body_s='int e; T_ m = glm::frexp(a[0], e); o[0] = glm::ldexp(m, e);')
+add('ldexp', ['T', 'int'], 'T', 'glm::ldexp({0}, {1})', sp_ldexp, variants=('vv',), bounds='all finite x, all int exponents', timeout=(300, 600))
+add('frexp_ldexp', ['T'], 'T', None, sp_frexp_ldexp, bounds='all finite x', timeout=(300, 600), heavy=True, body_s='int e; T_ m = glm::frexp(a[0], e); o[0] = glm::ldexp(m, e);')
 add('wrap_clamp', ['T'], 'T', 'glm::clamp({0})', sp_wrap_clamp, variants=('v',), bounds='all x', group='wrap')
 add('repeat', ['T'], 'T', 'glm::repeat({0})', sp_repeat, variants=('v',), bounds='all finite x', group='wrap')
-add('mirrorClamp', ['T'], 'T', 'glm::mirrorClamp({0})', sp_mirrorClamp, variants=('v',), bounds='all finite x', group='wrap')
+add('mirrorClamp', ['T'], 'T', 'glm::mirrorClamp({0})', sp_mirrorClamp, variants=('v',), bounds='all finite x', group='wrap', eh=eh_abs)
 add('mirrorRepeat', ['T'], 'T', 'glm::mirrorRepeat({0})', sp_mirrorRepeat, variants=('v',), bounds='all finite x', timeout=(150, 500), eh=eh_mirror)
-add('iround', ['T'], 'int', 'glm::iround({0})', sp_iround(False), pre=pre_iround(False), variants=('v',), known=['KF-C11-iround-half-ulp'], bounds='0 <= x, x + 0.5 < 2^31', timeout=(120, 400))
-add('uround', ['T'], 'unsigned', 'glm::uround({0})', sp_iround(True), pre=pre_iround(True), variants=('v',), known=['KF-C11-iround-half-ulp'], bounds='0 <= x, x + 0.5 < 2^32', timeout=(120, 400))
+add('iround', ['T'], 'int', 'glm::iround({0})', sp_iround(False), pre=pre_iround(False), variants=('v',), bounds='0 <= x < 2^31 - 0.5 (every x whose nearest integer is an int)', timeout=(120, 400))
+add('uround', ['T'], 'unsigned', 'glm::uround({0})', sp_iround(True), pre=pre_iround(True), variants=('v',), bounds='0 <= x < 2^32 - 0.5 (every x whose nearest integer is an unsigned)', timeout=(120, 400))
 add('openBounded', ['T', 'T', 'T'], 'bool', 'glm::openBounded({0}, {1}, {2})', sp_bounded(True), variants=('vvv',), Ls=(1, 2, 3, 4), bounds='all operands', group='compat')
 add('closeBounded', ['T', 'T', 'T'], 'bool', 'glm::closeBounded({0}, {1}, {2})', sp_bounded(False), variants=('vvv',), Ls=(1, 2, 3, 4), bounds='all operands', group='compat')
+def sp_epsilon(eq):
+    def spec(w, X, O):
+        x, y, eps = [F(v) for v in X]; d = z3.fpAbs(z3.fpSub(RNE, x, y))                  # documented: |x - y| < epsilon   /   |x - y| >= epsilon
+        return [('value', (O == 1) == (z3.fpLT(d, eps) if eq else z3.fpGEQ(d, eps)))]
+    return spec
+add('epsilonEqual', ['T', 'T', 'T'], 'bool', 'glm::epsilonEqual({0}, {1}, {2})', sp_epsilon(True), variants=('vvv', 'vvs'), bounds='all x, y, epsilon incl. NaN, infinities', group='epsilon',
+    mut=sp_epsilon(False))
+add('epsilonNotEqual', ['T', 'T', 'T'], 'bool', 'glm::epsilonNotEqual({0}, {1}, {2})', sp_epsilon(False), variants=('vvv', 'vvs'), bounds='all x, y, epsilon incl. NaN, infinities', group='epsilon')
 SCALARLESS = {'openBounded', 'closeBounded'}            # vector-only functions
 TABD = {e.name: e for e in TAB}
 
@@ -435,25 +525,29 @@ def run_entry(S, e, t, var=None, L=0):
     cutbox = []
     def spec(i, o):
         g = []
-        for k in range(n): g += [(lab(l, k), apply_cuts(gl, cutbox)) for l, gl in e.spec(w, Xs(i, k), Os(o, k))]
+        for k in range(n):
+            for l, gl in e.spec(w, Xs(i, k), Os(o, k)):
+                if cutbox: gl = apply_cuts(canon(gl)[0], cutbox)         # cut terms are in canonical form: bring the goal to the same form first
+                gc, ok = canon(gl)
+                g.append((lab(l, k), z3.BoolVal(True) if ok else (gc if cutbox else gl)))
         return g
     extra = None
     if e.eh:
         def extra(res):
             for row in res.outs:                      # one canonical syntactic form of every sub-term before cutting (z3's rewriter is part of the trusted solver)
                 for k_, o_ in enumerate(row):
-                    if isinstance(o_, FV): row[k_] = FV(o_.n, fp=z3.simplify(o_.fp))
+                    if isinstance(o_, FV): row[k_] = FV(o_.n, fp=canon(o_.fp)[0])
             hy, cuts = e.eh(S, w)(res); cutbox[:] = cuts; return hy
     pre = None
     if e.pre:
         def pre(i):
             h = []
             for k in range(n): h += e.pre(w, Xs(i, k))
-            return h
+            return [canon(x)[0] for x in h] if e.eh else h
     mut = None
     if e.mut and var is None:
         def mut(i, o): return [('m.' + l, gl) for l, gl in e.mut(w, Xs(i, 0), Os(o, 0))][:1]
-    to = S.cap(*e.timeout) if e.timeout else S.cap(60, 240)
+    to = S.cap(*e.timeout) if e.timeout else S.cap(150, 300)
     ins = None; kw = {}
     if e.alias:         # the same symbolic value is passed for two arguments (translator validation by independent sampling is switched off for these)
         ins = mkvars(U.fns[wname(e, t, var, L)]); dst, src = e.alias
@@ -470,6 +564,19 @@ def job_group(names, t, Ls, scalar=True):
                     if L in e.Ls: run_entry(S, e, t, var, L)
     return run
 
+def job_lemmas(S):
+    """the two IEEE identities canon() relies on (all bit patterns; SMT-LIB '=' i.e. identical value incl. the sign of zero, NaN = NaN)"""
+    for t in ('f32', 'f64'):
+        w = FT[t][1]; x = z3.FP('lem_x', FSORT[w]); y = z3.FP('lem_y', FSORT[w])
+        S.prove('c11.lemma.commute-add_%s' % t, z3.fpAdd(RNE, x, y) == z3.fpAdd(RNE, y, x), timeout=S.cap(120, 300), kind='lemma', bounds='all x, y', mandatory=(w == 32))
+        S.prove('c11.lemma.commute-mul_%s' % t, z3.fpMul(RNE, x, y) == z3.fpMul(RNE, y, x), timeout=S.cap(120, 300), kind='lemma', bounds='all x, y', mandatory=(w == 32))
+        S.prove('c11.lemma.reinterpret-roundtrip_%s' % t, z3.fpBVToFP(z3.fpToIEEEBV(x), FSORT[w]) == x, timeout=S.cap(120, 300), kind='lemma', bounds='all x (one NaN)')
+        S.prove('c11.lemma.sub-is-add-neg_%s' % t, z3.fpSub(RNE, x, y) == z3.fpAdd(RNE, x, z3.fpNeg(y)), timeout=S.cap(120, 300), kind='lemma', bounds='all x, y', mandatory=(w == 32))
+
+# quick tier: which vector lengths are run besides the scalar overload.  f32: every length for every group except the ones whose per-component cost is seconds (these keep vec3);
+# f64: every length for the groups that are decided in milliseconds, scalar only for the rest (the vector code is the same template as for float).  thorough: everything + mutant twins.
+Q_F32_L3_ONLY = {'smoothstep', 'smoothstep_range', 'roundEven', 'frexp', 'modf', 'ldexp'}
+Q_F64_VEC = {'rounding', 'abs_sign', 'classify', 'minmax', 'minmaxN', 'fmin3', 'fmax3', 'fmin4', 'fmax4', 'fminmax2', 'fclamp', 'clamp', 'step', 'mixb', 'mix', 'mod', 'routing', 'compat', 'epsilon', 'iround', 'uround'}
 JOB_CAP = {'quick': 600, 'thorough': 3000}
 def jobs(tier):
     q = tier == 'quick'; J = []
@@ -481,11 +588,16 @@ def jobs(tier):
             if not any(t in TABD[n_].types for n_ in names): continue
             heavy = any(TABD[n_].heavy for n_ in names)
             if q:
-                Ls = (3,) if (t == 'f32' and not heavy) else ()
-                J.append(('%s_%s' % (g, t), job_group(names, t, Ls)))
+                if heavy: Ls = ()
+                elif t == 'f64': Ls = (1, 2, 3, 4) if g in Q_F64_VEC else ()
+                else: Ls = (3,) if g in Q_F32_L3_ONLY else (1, 2, 3, 4)
+                J.append(('%s_%s' % (g, t), job_group(names, t, (3,) if 3 in Ls else ())))
+                for L in Ls:
+                    if L != 3 and any(TABD[n_].variants and L in TABD[n_].Ls for n_ in names): J.append(('%s_v%d_%s' % (g, L, t), job_group(names, t, (L,), scalar=False)))
             else:
                 J.append(('%s_%s' % (g, t), job_group(names, t, ())))
                 for L in (1, 2, 3, 4): J.append(('%s_v%d_%s' % (g, L, t), job_group(names, t, (L,), scalar=False)))
     for t in ('f32', 'f64'):
         J.append(('constants_' + t, job_constants(t, CONST_NAMES)))
+    J.append(('ieee_lemmas', job_lemmas))
     return J
